@@ -560,3 +560,12 @@ def find_group(prop, c):
         if g['scen'] == c['scen'] and g['variant'] == c['variant'] and g['mode'] == c['mode']:
             return g
     return None
+
+
+# "scale" scenario: the wakes-everybody clauses with 20..44 waiters (beyond the 2..4 the small scenarios use and the properties
+# quantify over; a fixed limit -- batch size, budget, small array -- is a realistic kind of change that no small scenario can see;
+# added after seeded change C06d).  Every event of the scenario is owned by the check that runs it.
+for _prop, _kinds in (('C04', (0, 1)), ('C10', (2,)), ('C08', (3,)), ('C11', (4,))):
+    for _k in _kinds:
+        PLANS[_prop]['groups'] += [G('scale', 'c-plain', 'B', 1, 40, thorough=1200, params=dict(kind=_k)),
+                                   G('scale', 'c-asan', 'A', 1, 60, thorough=2400, params=dict(kind=_k))]
